@@ -44,7 +44,7 @@ def run(tier):
         idx = rng.choice(len(cases), size=40000, replace=False)
         cases = [cases[i] for i in idx]
     theta = np.array([1.0, -2.0])
-    for c in cases:
+    for ci, c in enumerate(cases):
         kind, data, J = c["kind"], c["data"], c["jac"]
         n = len(data)
         f0 = rng.integers(-3, 4, size=n).astype(float)           # predictions at theta: J theta + const
@@ -88,6 +88,24 @@ def run(tier):
             if got[key].shape != want.shape or not all(SL.close(a, b, scale=mag * slack) for a, b in zip(got[key], want)):
                 ck.violation(f"{key}: true derivative with respect to the model parameters (chain rule through the Jacobian)",
                              {**ident, "want": want, "got": got[key]}, site=f"{cname}.{key}")
+        # the same data repeated Rep times: a large data set whose log-likelihood is Rep times the value above
+        if ci % (7 if tier == "quick" else 23) == 0 and zmax < 1e3:
+            R = int(c["rep"])
+            modelR = Lin(J * R, np.tile(const, R))
+            kw = dict(y_data=np.tile(y, R), forward_model=modelR, forward_model_jacobian=modelR.jac)
+            LR = type(L)(**kw, **({"gamma": np.tile(scale, R)} if kind == "cauchy" else {"sigma": np.tile(sig if kind == "logistic" else scale, R)}))
+            with np.errstate(all="ignore"):
+                gv, gg = float(LR(theta)), np.asarray(LR.gradient(theta), dtype=float)
+            ck.case((kind, str(data), str(J), "rep"))
+            want = SL.value(c["value_rep"])
+            if not SL.close(gv, want, scale=SL.magnitude(c["value_rep"]) * slack):
+                ck.violation("value: sum over data of the log-density of the named distribution (normalised)",
+                             {**ident, "data_set_repeated": R, "data_points": n * R, "want": want, "got": gv}, site=f"{cname}.value:large")
+            wantg = np.array([SL.value(g) for g in c["grad_rep"]])
+            mag = max([SL.magnitude(g) for g in c["grad_rep"]] + [1.0])
+            if gg.shape != wantg.shape or not all(SL.close(a, b, scale=mag * slack) for a, b in zip(gg, wantg)):
+                ck.violation("grad: true derivative with respect to the model parameters (chain rule through the Jacobian)",
+                             {**ident, "data_set_repeated": R, "want": wantg, "got": gg}, site=f"{cname}.grad:large")
         if len(ck.samples) < 4 and n == maxn and any("q" in d and d["q"][0] == "pow2" for d in data):
             ck.sample({"class": cname, "data": data, "jacobian": J, "spec_value": SL.value(c["value"]), "code_value": got["value"]})
     ck.traces += len(cases)
